@@ -65,6 +65,9 @@ fn check_alloc(size: usize) {
                 unsafe { (*p).alloc_size.store(size as u64, Ordering::SeqCst) };
             }
             ALLOC_LIMIT.store(0, Ordering::SeqCst);
+            if std::env::var_os("AXMC_ALLOC_TRACE").is_some() {
+                eprintln!("oversized allocation of {size} bytes at\n{}", std::backtrace::Backtrace::force_capture());
+            }
             let f = EMERGENCY_FN.swap(0, Ordering::SeqCst);
             if f != 0 {
                 let func: fn(usize) = unsafe { std::mem::transmute(f) };
